@@ -155,3 +155,33 @@ func VerifC15_Nested() {
 	}
 	zz.Reach("C15.nested")
 }
+
+// VerifC15_OpenIterator: writes performed while an iterator is open: an iterator created on the wrapper keeps showing
+// the overlay as it was when it was created - later Set/Delete of keys in its range (also of keys already dirty) and
+// the creation of further iterators do not change what it returns - and a new iterator shows the new overlay.
+func VerifC15_OpenIterator() {
+	parent := vParent()
+	model := parent.Clone()
+	w := NewStore(parent)
+	vWrite("a", w, model, 0)
+	if zz.Thorough() {
+		vWrite("b", w, model, 1)
+	}
+	s, e := vBound("s"), vBound("e")
+	asc := zz.Choice("dir", 2) == 0
+	snapshot := model.Clone()
+	var it1 types.Iterator
+	if asc {
+		it1 = w.Iterator(s, e)
+	} else {
+		it1 = w.ReverseIterator(s, e)
+	}
+	// a write while it1 is open, then another iterator over everything (forces the dirty items to be re-sorted)
+	vWrite("c", w, model, 2)
+	it2 := w.Iterator(nil, nil)
+	got2 := vstore.Drain(it2)
+	got1 := vstore.Drain(it1)
+	zz.Assert("C15.open-iterator.keeps-its-view", snapshot.IterationOfS(got1, s, e, asc))
+	zz.Assert("C15.open-iterator.new-iterator-sees-new-overlay", model.IterationOfS(got2, nil, nil, true))
+	zz.Reach("C15.open-iterator")
+}
